@@ -23,7 +23,22 @@ From GV Require Import Lang.GlSyntax Lang.GlSem Tr.MiniGo Tr.MiniGoC.
 Import ListNotations.
 Open Scope string_scope.
 
+(* statements without control effects, and lists of them: the branches of an if
+   that is followed by more statements *)
+Inductive sstmt :=
+| TLet (x : string) (e : cexpr)                         (* x := e *)
+| TVarD (x : string) (t : gty) (e : option cexpr)       (* var x T [= e] *)
+| TAsg (x : string) (e : cexpr)                         (* x = e *)
+| TOpAsg (op : gop) (x : string) (e : cexpr)            (* x op= e *)
+| TIncD (inc : bool) (x : string).                      (* x++ / x-- *)
+
+Inductive sloc :=
+| LEnd
+| LSimple (st : sstmt) (k : sloc)
+| LIfL (c : cexpr) (th el : sloc) (k : sloc).           (* if c { th } else { el }; k *)
+
 Inductive sbody :=
+| SIfL (c : cexpr) (th el : sloc) (k : sbody)           (* if c { th } else { el }; k   (no return inside) *)
 | SRet (e : cexpr)                                      (* return e *)
 | SLet (x : string) (e : cexpr) (k : sbody)             (* x := e; k *)
 | SVarD (x : string) (t : gty) (e : option cexpr) (k : sbody)   (* var x T [= e]; k *)
@@ -76,8 +91,80 @@ with trs_args (T : ftable) (self : string) (G : tenv) (args : cargs) (acc : expr
       end
   end.
 
+(* a statement as a binding: the name it binds, its expression, the environment after it *)
+Definition trs_simple (T : ftable) (self : string) (G : tenv) (st : sstmt) : option (binder * expr * tenv) :=
+  match st with
+  | TLet x e =>
+      match trs_expr T self G e with
+      | Some e' => Some (BNamed x, e', (x, (false, TU64)) :: G)
+      | None => None
+      end
+  | TVarD x t (Some e) =>
+      match trs_expr T self G e with
+      | Some e' => Some (BNamed x, RefTo (ty_of t) e', (x, (true, t)) :: G)
+      | None => None
+      end
+  | TVarD x t None => Some (BNamed x, RefZero (ty_of t), (x, (true, t)) :: G)
+  | TAsg x e =>
+      match tlookup x G, trs_expr T self G e with
+      | Some (true, t), Some e' => Some (BAnon, Store (ty_of t) (Var x) e', G)
+      | _, _ => None
+      end
+  | TOpAsg op x e =>
+      match tlookup x G, trs_expr T self G e with
+      | Some (true, t), Some e' =>
+          if assign_op op then
+            match tr_binop op (Load (ty_of t) (Var x)) e' with
+            | Some rhs => Some (BAnon, Store (ty_of t) (Var x) rhs, G)
+            | None => None
+            end
+          else None
+      | _, _ => None
+      end
+  | TIncD inc x =>
+      match tlookup x G with
+      | Some (true, t) =>
+          Some (BAnon, Store (ty_of t) (Var x) (BinOp (if inc then PlusOp else MinusOp) (Load (ty_of t) (Var x)) (Lit 1)), G)
+      | _ => None
+      end
+  end.
+
+Definition lend (k : sloc) : bool := match k with LEnd => true | _ => false end.
+
+(* stmts with usage Local: the last statement's expression is the value of the
+   list, an empty list is #() *)
+Fixpoint trs_loc (T : ftable) (self : string) (G : tenv) (l : sloc) : option expr :=
+  match l with
+  | LEnd => Some UnitE
+  | LSimple st k =>
+      match trs_simple T self G st with
+      | Some (x, e, G') =>
+          if lend k then Some e
+          else match trs_loc T self G' k with
+               | Some k' => Some (LetIn x e k')
+               | None => None
+               end
+      | None => None
+      end
+  | LIfL c th el k =>
+      match trs_expr T self G c, trs_loc T self G th, trs_loc T self G el with
+      | Some c', Some t', Some e' =>
+          if lend k then Some (If c' t' e')
+          else match trs_loc T self G k with
+               | Some k' => Some (Seq (If c' t' e') k')
+               | None => None
+               end
+      | _, _, _ => None
+      end
+  end.
+
 Fixpoint trs_body (T : ftable) (self : string) (G : tenv) (b : sbody) : option expr :=
   match b with
+  | SIfL c th el k =>
+      match trs_expr T self G c, trs_loc T self G th, trs_loc T self G el, trs_body T self G k with
+      | Some c', Some t', Some e', Some k' => Some (Seq (If c' t' e') k')
+      | _, _, _, _ => None
+      end
   | SRet e => trs_expr T self G e
   | SLet x e k =>
       match trs_expr T self G e, trs_body T self ((x, (false, TU64)) :: G) k with
@@ -164,6 +251,52 @@ Fixpoint find_sfunc (f : string) (P : sprog) : option sfunc :=
 (* goose prints a > b as b < a: the operands are evaluated in the other order *)
 Definition swapped (op : gop) : bool := match op with OGt | OGe => true | _ => false end.
 
+(* a statement without control effects, given the evaluator of expressions *)
+Definition sgo_simple (ev : genv -> state -> cexpr -> option (val * state)) (r : genv) (s : state) (st : sstmt) : option (genv * state) :=
+  match st with
+  | TLet x e =>
+      match ev r s e with
+      | Some (v, s1) => Some ((x, Imm v) :: r, s1)
+      | None => None
+      end
+  | TVarD x t eo =>
+      match (match eo with Some e => ev r s e | None => Some (zero_of t, s) end) with
+      | Some (v, s1) => let '(b, s2) := alloc_cell v s1 in Some ((x, Cell b) :: r, s2)
+      | None => None
+      end
+  | TAsg x e =>
+      match glookup x r, ev r s e with
+      | Some (Cell b), Some (v, s1) => match write_cell b v s1 with Some s2 => Some (r, s2) | None => None end
+      | _, _ => None
+      end
+  | TOpAsg op x e =>
+      match glookup x r, ev r s e with
+      | Some (Cell b), Some (v, s1) =>
+          match read_cell b s1 with
+          | Some old =>
+              match go_binop op old v with
+              | Some nv => match write_cell b nv s1 with Some s2 => Some (r, s2) | None => None end
+              | None => None
+              end
+          | None => None
+          end
+      | _, _ => None
+      end
+  | TIncD inc x =>
+      match glookup x r with
+      | Some (Cell b) =>
+          match read_cell b s with
+          | Some old =>
+              match go_binop (if inc then OAdd else OSub) old (LitV (LitInt 1)) with
+              | Some nv => match write_cell b nv s with Some s2 => Some (r, s2) | None => None end
+              | None => None
+              end
+          | None => None
+          end
+      | _ => None
+      end
+  end.
+
 Fixpoint sgo_expr (n : nat) (P : sprog) (r : genv) (s : state) (e : cexpr) {struct n} : option (val * state) :=
   match n with
   | O => None
@@ -243,11 +376,43 @@ with sgo_args (n : nat) (P : sprog) (r : genv) (s : state) (args : cargs) {struc
           end
       end
   end
+with sgo_loc (n : nat) (P : sprog) (r : genv) (s : state) (l : sloc) {struct n} : option state :=
+  (* the declarations of the list end with it: only the store comes back *)
+  match n with
+  | O => None
+  | S n' =>
+      match l with
+      | LEnd => Some s
+      | LSimple st k =>
+          match sgo_simple (sgo_expr n' P) r s st with
+          | Some (r1, s1) => sgo_loc n' P r1 s1 k
+          | None => None
+          end
+      | LIfL c th el k =>
+          match sgo_expr n' P r s c with
+          | Some (LitV (LitBool cb), s1) =>
+              match sgo_loc n' P r s1 (if cb then th else el) with
+              | Some s2 => sgo_loc n' P r s2 k
+              | None => None
+              end
+          | _ => None
+          end
+      end
+  end
 with sgo_body (n : nat) (P : sprog) (r : genv) (s : state) (b : sbody) {struct n} : option (val * state) :=
   match n with
   | O => None
   | S n' =>
       match b with
+      | SIfL c th el k =>
+          match sgo_expr n' P r s c with
+          | Some (LitV (LitBool cb), s1) =>
+              match sgo_loc n' P r s1 (if cb then th else el) with
+              | Some s2 => sgo_body n' P r s2 k
+              | None => None
+              end
+          | _ => None
+          end
       | SRet e => sgo_expr n' P r s e
       | SLet x e k =>
           match sgo_expr n' P r s e with
